@@ -1516,3 +1516,25 @@ Proof.
     destruct (IH s1 Hg1 Hr) as [E Hg2]. rewrite E.
     destruct (impl_run pfx s1 r) as [s2 o2]. simpl in *. split; [reflexivity|exact Hg2].
 Qed.
+
+(** * Read your writes, and nothing else moves (corollaries of the refinement) *)
+Lemma cache_get_after_put pfx s k v k' : sorted_state s ->
+  cache_get pfx (cache_put pfx k v s) k' = if key_eqb k' k then v else cache_get pfx s k'.
+Proof.
+  intro H. rewrite (cache_get_refines pfx _ k' (cache_put_sorted pfx k v s H)).
+  rewrite (cache_get_refines pfx s k' H).
+  destruct (cache_put_refines pfx k v s H) as [E _]. rewrite E.
+  rewrite !kv_lookup_lookup, (lookup_spec_put _ _ _ _ (abs_sorted s H)).
+  assert (K : key_eqb (pkey pfx k') (pkey pfx k) = key_eqb k' k).
+  { destruct (key_eqb k' k) eqn:E1.
+    - apply key_eqb_eq in E1. subst k'. apply key_eqb_refl.
+    - destruct (key_eqb (pkey pfx k') (pkey pfx k)) eqn:E2; [|reflexivity].
+      apply key_eqb_eq in E2. unfold pkey in E2. injection E2 as E2. subst k'.
+      rewrite key_eqb_refl in E1. discriminate. }
+  rewrite K. destruct (key_eqb k' k); [|reflexivity].
+  unfold nz. destruct v; reflexivity.
+Qed.
+
+Lemma cache_get_after_delete pfx s k k' : sorted_state s ->
+  cache_get pfx (cache_delete pfx k s) k' = if key_eqb k' k then [] else cache_get pfx s k'.
+Proof. intro H. exact (cache_get_after_put pfx s k [] k' H). Qed.
